@@ -1255,6 +1255,9 @@ func runC07(r *lib.Run) {
 		t2 := time.Now()
 		runRaceChild(r, r.N(1, 3))
 		r.CountN("time_ms.race_child", time.Since(t2).Milliseconds())
+		t3 := time.Now()
+		runC07BinaryRace(r)
+		r.CountN("time_ms.binary_race", time.Since(t3).Milliseconds())
 	}
 }
 
